@@ -316,7 +316,9 @@ class StoreBackendMixin(object):
         filename = os.path.join(self.location, *call_id, "func_code.py")
         try:
             with self._open_item(filename, "rb") as f:
-                return f.read().decode("utf-8")
+                # (a truncated file can end inside a multi-byte character: it
+                # then simply differs from the code of the function)
+                return f.read().decode("utf-8", errors="replace")
         except:  # noqa: E722
             raise
 
